@@ -100,6 +100,8 @@ def _key(case):
 def run_impl(case):
     try:
         obs = fu.run_real(case)
+    except fu.ObservationError:
+        raise          # the harness cannot observe the object: infrastructure error, not a verdict
     except Exception as e:
         return {"raise": core.exc_class(e), "msg": str(e)[:200]}
     obs["monitor"] = monitor(case, obs)
@@ -184,6 +186,18 @@ def monitor(case, impl):
         a = np.asarray(impl[name])
         if np.any(np.isinf(a)):
             v("finite", -1, int(np.where(np.isinf(a))[0][0]), f"{name} infinite")
+    # nan is the "not yet" marker of the statistics only: a nucleated vial has a finite T_nucleation
+    tN, TN, tS = (np.asarray(impl[x]) for x in ("tNuc", "TNuc", "tSol"))
+    incons = np.isnan(tN) != np.isnan(TN)
+    if incons.any():
+        i0 = int(np.where(incons)[0][0])
+        v("finite", -1, i0, f"t_nucleation={tN[i0]!r} but T_nucleation={TN[i0]!r}")
+    if (np.isnan(tN) & ~np.isnan(tS)).any():
+        i0 = int(np.where(np.isnan(tN) & ~np.isnan(tS))[0][0])
+        v("finite", -1, i0, f"t_solidification={tS[i0]!r} without a nucleation time")
+    for name in ("Hshelf", "Hext", "Tshelf", "t"):
+        if not np.all(np.isfinite(np.asarray(impl[name], dtype=float))):
+            v("finite", -1, -1, f"{name} contains nan/inf")
     Hsh = np.asarray(impl["Hshelf"])
     if (Hsh < 0).any():
         i = int(np.where(Hsh < 0)[0][0])
@@ -280,7 +294,7 @@ def classify(case, impl):
     if not mon["stable"]:
         m = mon["margins"]
         why = [k for k in ("cfl", "xcond", "range") if m[k] > 1] + ([] if m["T0>=start"] else ["T0<start"])
-        tags.append("outside because " + "+".join(why))
+        tags.append("outside because " + ("+".join(why) or "coefficients/program/parameters not admissible"))
         _TOTALS["runs_outside"] += 1
         _TOTALS["bound_violations_outside_stable"] += len(mon["violations"])
     else:
